@@ -13,6 +13,8 @@ OUT = os.path.join(os.path.dirname(HERE), 'lean', 'SqGen', 'Generated.lean')
 SAFE_MODULES = {'typing', 'abc', 'dataclasses', 'decimal', 'math', 'functools', 'contextlib', 'copy', 'collections', 'itertools',
                 'operator', 'enum', 'numbers', 'fractions', 'string', 're', 'bisect', 'heapq', 'unicodedata', 'time', 'datetime',
                 'random', 'regex', 'statistics', 'textwrap', 'json', 'struct', 'array', 'weakref', 'reprlib', 'difflib'}
+# the functions of `regex` / `re` that run the matching engine on a subject
+RX_ENTRY = {'search', 'match', 'fullmatch', 'findall', 'finditer', 'sub', 'subn', 'split', 'splititer', 'subf', 'subfn'}
 # Python builtins that compute on their arguments only (no I/O, no reflection on names, no code execution): which of them a
 # file calls is not recorded
 HARMLESS_BUILTINS = {'abs', 'all', 'any', 'bool', 'bytes', 'callable', 'chr', 'dict', 'divmod', 'enumerate', 'filter', 'float',
@@ -129,9 +131,14 @@ def extract():
                             calls.add(f'{mod}/{mods[f.value.id]}.{f.attr}')
                         elif f.value.id in froms and froms[f.value.id][0].split('.')[0] not in ({'smartquery', ''} | SAFE_MODULES):
                             calls.add(f'{mod}/{froms[f.value.id][0]}:{froms[f.value.id][1]}.{f.attr}')
-                        if mod == 'functions' and f.value.id == 'regex':
+                        # every call INTO a regular-expression engine (the third-party `regex` or the stdlib `re`, under any
+                        # alias), whichever function of the package makes it: engine module, engine function, timeout argument
+                        if mods.get(f.value.id) in ('regex', 're') and f.attr in RX_ENTRY:
                             kw = {k.arg: ast.unparse(k.value) for k in ch.keywords}
-                            sites.append((enc, f.attr, kw.get('timeout', '')))
+                            sites.append((mods[f.value.id], f.attr, kw.get('timeout', '')))
+                    elif isinstance(f, ast.Name) and f.id in froms and froms[f.id][0] in ('regex', 're') and froms[f.id][1] in RX_ENTRY:
+                        kw = {k.arg: ast.unparse(k.value) for k in ch.keywords}
+                        sites.append((froms[f.id][0], froms[f.id][1], kw.get('timeout', '')))
                     elif isinstance(f, ast.Name) and f.id in froms and froms[f.id][0].split('.')[0] not in ({'smartquery', ''} | SAFE_MODULES):
                         calls.add(f'{mod}/{froms[f.id][0]}:{froms[f.id][1]}')
                     elif isinstance(f, ast.Name) and f.id in pybuiltins and f.id not in HARMLESS_BUILTINS:
@@ -164,7 +171,7 @@ def extract():
                                 if u.startswith('self.lex.'):
                                     rs.append(u[len('self.lex.'):] + '=' + ast.unparse(n.value))
                     resets[node.name] = rs
-    facts['regexCallSites'] = sites
+    facts['regexCallSites'] = sorted(set(sites))
     facts['externalCalls'] = sorted(calls)
     facts['imports'] = sorted(imports)
     facts['opClasses'] = op_classes
